@@ -18,4 +18,7 @@ for P in "$@"; do
   first=$(grep -A1 '^VIOLATION' "$OUTD/$P.out" | sed -n 2p | cut -c1-220)
   echo "SEEDED $ID check=$P rc=$rc violations=$nv secs=$(( $(date +%s) - t0 )) :: $first"
 done
+# drop the build cache of the scratch tree (hundreds of MB per seeded change)
+TH=$(VERIF_REPO=$WT python3 -c "import sys; sys.path.insert(0,'$VERIF/tools'); import build; print(build.tree_hash())" 2>/dev/null)
+[ -n "$TH" ] && rm -rf "$VERIF/.cache/$TH"
 git -C /repo worktree remove --force "$WT"
